@@ -75,6 +75,23 @@ Proof. apply (committed_in_gcommit s J). Qed.
 Theorem applied_prefix_global_fixed j : app s j <= length (gcommit s).
 Proof. apply (applied_in_gcommit s J). Qed.
 
+(* C03: what any node regards as committed is in the log of every leader of a term after the term in
+   which the global committed log was committed *)
+Theorem gcommit_committed_fixed : gcommit s = [] \/ exists t, committed_in_term s t (gcommit s).
+Proof. apply (gcommit_committed s J). Qed.
+
+Theorem committed_entries_in_later_leaders_fixed j :
+  exists t, forall u c el q, In (u, c, el, q) (leaders s) -> t < u ->
+    prefix (firstn (commit (nodes s j)) (log (nodes s j))) el.
+Proof.
+  destruct (committed_prefix_global_fixed j) as [_ Hp].
+  destruct gcommit_committed_fixed as [E|[t Ht]].
+  - exists 0. intros u c el q _ _. rewrite E in Hp. destruct Hp as [r Hr].
+    destruct (firstn (commit (nodes s j)) (log (nodes s j))); [apply prefix_nil|discriminate].
+  - exists t. intros u c el q Hl Hu. eapply prefix_trans; [exact Hp|].
+    eapply leader_completeness_fixed; eauto.
+Qed.
+
 (* C02/C03: whatever happens next (crashes and restarts included), the committed log only grows, so
    an entry applied anywhere is never replaced and is what every node applies at that index later *)
 Theorem committed_log_grows_fixed s' : steps_fixed s s' -> prefix (gcommit s) (gcommit s').
